@@ -10,7 +10,7 @@ theorem C16_stdin_prints_library_result (lib : Lib) (a : Args) (w : Entry) (inpu
   unfold runStdin formatOne formatDebug
   simp only [hc, hi]
   cases h : lib a.style input with
-  | none => simp
+  | none => cases hq : a.quiet <;> simp [warnEv, hq]
   | some r => by_cases hr : (r != input) = true <;> simp [hr]
 
 end Typstyle.Cli
